@@ -245,10 +245,46 @@ pub fn cstr(s: &str) -> CString {
     CString::new(s).unwrap()
 }
 
-/// a free TCP port on the given address (bind, read, release)
+/// a free TCP port on the given address (bind, read, release). Another socket may be handed the
+/// same port before the caller binds it: callers retry when their bind fails
 pub fn free_port(ip: &str) -> u16 {
     let l = std::net::TcpListener::bind(format!("{ip}:0")).expect("bind");
     l.local_addr().unwrap().port()
+}
+
+/// a loopback port on which connects are refused for as long as the value lives: the socket is
+/// bound (so the OS hands the port to nobody else) and never listens
+pub struct RefusingPort {
+    fd: c_int,
+    pub port: u16,
+}
+
+impl RefusingPort {
+    pub fn new() -> RefusingPort {
+        unsafe {
+            let fd = libc::socket(libc::AF_INET, libc::SOCK_STREAM, 0);
+            assert!(fd >= 0, "socket");
+            let mut sa: libc::sockaddr_in = std::mem::zeroed();
+            sa.sin_family = libc::AF_INET as libc::sa_family_t;
+            sa.sin_port = 0;
+            sa.sin_addr = libc::in_addr { s_addr: u32::from_ne_bytes([127, 0, 0, 1]) };
+            let rc = libc::bind(fd, &sa as *const _ as *const libc::sockaddr, std::mem::size_of::<libc::sockaddr_in>() as libc::socklen_t);
+            assert_eq!(rc, 0, "bind");
+            let mut out: libc::sockaddr_in = std::mem::zeroed();
+            let mut len = std::mem::size_of::<libc::sockaddr_in>() as libc::socklen_t;
+            let rc = libc::getsockname(fd, &mut out as *mut _ as *mut libc::sockaddr, &mut len);
+            assert_eq!(rc, 0, "getsockname");
+            RefusingPort { fd, port: u16::from_be(out.sin_port) }
+        }
+    }
+}
+
+impl Drop for RefusingPort {
+    fn drop(&mut self) {
+        unsafe {
+            libc::close(self.fd);
+        }
+    }
 }
 
 /// build an address filter through the C ABI from a textual description: "any", or a list of
